@@ -2,6 +2,7 @@
 package c17
 
 import (
+	"bytes"
 	"encoding/binary"
 	"errors"
 	"fmt"
@@ -90,7 +91,70 @@ func libraryFiles(dir string) []baseFile {
 		}
 		os.Remove(p)
 	}
+	if b := compoundVLenFile(filepath.Join(dir, "lib-compound-vlen.h5")); b != nil {
+		out = append(out, baseFile{"lib-compound-vlen", b})
+	}
 	return out
+}
+
+// compoundVLenFile: a compound dataset {int32 id; variable-length string name} whose records refer to the global heap
+// collection a variable-length string dataset of the same file created (written in a second session, as raw records).
+func compoundVLenFile(p string) []byte {
+	defer os.Remove(p)
+	fw, err := hdf5.CreateForWrite(p, hdf5.CreateTruncate)
+	if err != nil {
+		return nil
+	}
+	i32, err1 := core.CreateBasicDatatypeMessage(core.DatatypeFixed, 4)
+	char, err2 := core.CreateBasicDatatypeMessage(core.DatatypeString, 1)
+	if err1 != nil || err2 != nil {
+		fw.Close()
+		return nil
+	}
+	charEnc, err := core.EncodeDatatypeMessage(char)
+	if err != nil {
+		fw.Close()
+		return nil
+	}
+	vstr := &core.DatatypeMessage{Class: core.DatatypeVarLen, Version: 1, Size: 16, ClassBitField: 0x01, Properties: charEnc}
+	ctype, err := core.CreateCompoundTypeFromFields([]core.CompoundFieldDef{{Name: "id", Offset: 0, Type: i32}, {Name: "name", Offset: 4, Type: vstr}})
+	if err != nil {
+		fw.Close()
+		return nil
+	}
+	if _, err := fw.CreateCompoundDataset("/recs", ctype, []uint64{2}); err != nil {
+		fw.Close()
+		return nil
+	}
+	names, err := fw.CreateDataset("/names", hdf5.VLenString, []uint64{2})
+	if err != nil || names.Write([]string{"alpha", "beta"}) != nil || fw.Close() != nil {
+		return nil
+	}
+	data, err := os.ReadFile(p)
+	heapAddr := bytes.Index(data, []byte("GCOL"))
+	if err != nil || heapAddr < 0 {
+		return nil
+	}
+	raw := make([]byte, 40)
+	for i := 0; i < 2; i++ {
+		rec := raw[i*20:]
+		binary.LittleEndian.PutUint32(rec[0:], uint32(i+1))
+		binary.LittleEndian.PutUint64(rec[4:], uint64(heapAddr))
+		binary.LittleEndian.PutUint32(rec[12:], uint32(i+1))
+	}
+	fw2, err := hdf5.OpenForWrite(p, hdf5.OpenReadWrite)
+	if err != nil {
+		return nil
+	}
+	recs, err := fw2.OpenDataset("/recs")
+	if err != nil || recs.WriteRaw(raw) != nil || fw2.Close() != nil {
+		return nil
+	}
+	b, err := os.ReadFile(p)
+	if err != nil {
+		return nil
+	}
+	return b
 }
 
 var corpusFiles = sync.OnceValue(func() []baseFile {
@@ -791,8 +855,48 @@ func histories() [][]hist.Op {
 			{K: "attr", Path: "/v", Name: "a", A: &hist.AttrVal{Kind: "i32", Seed: 3}},
 			{K: "dataset", Path: "/w", D: &hist.DSpec{Type: "vl:i32", Dims: []uint64{6}, Chunk: []uint64{4}}}, {K: "write", Path: "/w", Seed: 6},
 			{K: "dataset", Path: "/n", D: &hist.DSpec{Type: "i32", Dims: []uint64{3}}}, {K: "write", Path: "/n", Seed: 7, Mode: 1}},
+		// data that is written more than once (a refused rewrite leaves one complete version), a contiguous dataset larger than
+		// a megabyte, and a small variable-length dataset followed by one whose elements make the shared heap collection roll over
+		{{K: "dataset", Path: "/c2", D: &hist.DSpec{Type: "f64", Dims: []uint64{6}, Chunk: []uint64{2}}}, {K: "write", Path: "/c2", Seed: 1, Mode: 1}, {K: "write", Path: "/c2", Seed: 40, Mode: 1},
+			{K: "dataset", Path: "/big", D: &hist.DSpec{Type: "f64", Dims: []uint64{140000}}}, {K: "write", Path: "/big", Seed: 3, Mode: 1}, {K: "write", Path: "/big", Seed: 50, Mode: 1},
+			{K: "dataset", Path: "/a", D: &hist.DSpec{Type: "vl:str", Dims: []uint64{3}}}, {K: "write", Path: "/a", Seed: smallVL()},
+			{K: "dataset", Path: "/b", D: &hist.DSpec{Type: "vl:str", Dims: []uint64{8}}}, {K: "write", Path: "/b", Seed: bigVL()}},
 	}
 }
+
+// smallVL / bigVL: data seeds for which every element of a 3-element list is short, resp. at least three elements of an
+// 8-element list are longer than a heap collection.
+var smallVL = sync.OnceValue(func() int {
+	for s := 0; s < 5000; s++ {
+		_, el := hist.DSpec{Type: "vl:str"}.VLData([]uint64{3}, s)
+		ok := true
+		for _, e := range el {
+			if len(e) > 64 || len(e) == 0 {
+				ok = false
+			}
+		}
+		if ok {
+			return s
+		}
+	}
+	return 0
+})
+
+var bigVL = sync.OnceValue(func() int {
+	for s := 0; s < 5000; s++ {
+		_, el := hist.DSpec{Type: "vl:str"}.VLData([]uint64{8}, s)
+		n := 0
+		for _, e := range el {
+			if len(e) > 4000 {
+				n++
+			}
+		}
+		if n >= 3 {
+			return s
+		}
+	}
+	return 0
+})
 
 var hookMu sync.Mutex
 
@@ -1042,9 +1146,9 @@ func afterError(clean, got *obs.File, h []hist.Op, where string) string {
 	for _, p := range got.Panics {
 		return "panic: " + p
 	}
-	target := ""
+	target, failedKind := "", ""
 	if f := strings.Fields(where); len(f) >= 4 {
-		target = f[3] // "op <i> <kind> <path>"
+		target, failedKind = f[3], f[2] // "op <i> <kind> <path>"
 	}
 	writes := map[string]int{}
 	for _, o := range h {
@@ -1085,6 +1189,25 @@ func afterError(clean, got *obs.File, h []hist.Op, where string) string {
 		if cd == nil {
 			return fmt.Sprintf("dataset %s is listed, the fault-free run has no such dataset", p)
 		}
+		// values of the dataset whose rewrite was refused: one of the complete versions the history writes (the refused call's
+		// own data included), the never-written state, or an error - never a blend
+		if p == target && failedKind == "write" && writes[p] > 1 && d.ReadErr == "" && len(d.Read) > 0 {
+			match := true
+			for _, v := range d.Read {
+				if v != 0 {
+					match = false
+					break
+				}
+			}
+			for _, ver := range versionsOf(h, p) {
+				if reflect.DeepEqual(ver, d.Read) {
+					match = true
+				}
+			}
+			if !match {
+				return fmt.Sprintf("dataset %s reads %d values that are none of the versions the history writes (and not the never-written state): a blend", p, len(d.Read))
+			}
+		}
 		if p == target {
 			continue
 		}
@@ -1106,6 +1229,36 @@ func afterError(clean, got *obs.File, h []hist.Op, where string) string {
 		}
 	}
 	return ""
+}
+
+var versionCache sync.Map // "<history fingerprint>|<path>" -> [][]uint64
+
+// versionsOf returns what Read gives for dataset p after each of the history's full writes and resizes of it (fault-free
+// prefix runs).
+func versionsOf(h []hist.Op, p string) [][]uint64 {
+	key := fmt.Sprintf("%d|%s|%s", len(h), h[0].Path, p)
+	if v, ok := versionCache.Load(key); ok {
+		return v.([][]uint64)
+	}
+	var out [][]uint64
+	for i, o := range h {
+		if (o.K != "write" && o.K != "resize") || o.Path != p {
+			continue
+		}
+		file := filepath.Join(vt.GetEnv().Scratch, fmt.Sprintf("wfv-%d.h5", os.Getpid()))
+		if ex, err := hist.NewExec(file, 2); err == nil {
+			for _, q := range h[:i+1] {
+				ex.Apply(q)
+			}
+			ex.Close()
+			if d := obs.Read(file, obs.Options{}).Datasets[p]; d != nil && d.ReadErr == "" {
+				out = append(out, d.Read)
+			}
+		}
+		os.Remove(file)
+	}
+	versionCache.Store(key, out)
+	return out
 }
 
 // noAddr returns a copy of the observation without object addresses (a repeated call allocates anew; where an object lies
